@@ -1130,6 +1130,9 @@ func cprngRule(P *Program, R *Report, rule string) {
 		}
 	}
 	R.decide(rule, "common.globalCprng:init-only", "the process-wide generator is assigned only during package initialisation", len(writers) == 1 && strings.HasPrefix(writers[0], "common.init"), strings.Join(writers, ","), "")
+	// ... from a seed that crypto/rand filled: the buffer handed to NewCPRNG is the very buffer the system generator
+	// wrote (a copy passed by value to a helper that fills it leaves the seed all zero)
+	cprngSeedRule(P, R, rule)
 }
 
 func memoPerObjectRule(P *Program, R *Report) {
@@ -1291,4 +1294,88 @@ func revocationRandomizersRule(P *Program, R *Report) {
 		}
 		R.decide(rule, "revocation.NewProofRandomizer:limit", "the shared alpha randomiser is FastRandomBigInt(b * twoZk)", ok, "", P.Pos(np.Pos()))
 	}
+}
+
+
+// rootAlloc follows an address or slice back to the local it lives in, through the parameters of helpers that are
+// examined on behalf of a call (paramBindV).
+func rootAlloc(v ssa.Value) *ssa.Alloc {
+	for i := 0; i < 20 && v != nil; i++ {
+		switch x := v.(type) {
+		case *ssa.Alloc:
+			return x
+		case *ssa.Slice:
+			v = x.X
+		case *ssa.FieldAddr:
+			v = x.X
+		case *ssa.IndexAddr:
+			v = x.X
+		case *ssa.ChangeType:
+			v = x.X
+		case *ssa.Convert:
+			v = x.X
+		case *ssa.SliceToArrayPointer:
+			v = x.X
+		case *ssa.Parameter:
+			b, ok := paramBindV[x]
+			if !ok || b == nil {
+				return nil
+			}
+			v = b
+		default:
+			return nil
+		}
+	}
+	return nil
+}
+
+func cprngSeedRule(P *Program, R *Report, rule string) {
+	var initFn *ssa.Function
+	for _, f := range P.AllFuncs {
+		for _, s := range sinksOf(f) {
+			if s.target == "global:common.globalCprng" {
+				initFn = f
+			}
+		}
+	}
+	if initFn == nil {
+		return
+	}
+	var seeds, filled []*ssa.Alloc
+	nNew, nRead := 0, 0
+	deepVisit(P, initFn, 2, func(g *ssa.Function) {
+		for _, c := range callsIn(g) {
+			switch {
+			case isCallTo(c, "common.NewCPRNG"):
+				nNew++
+				if a := rootAlloc(callArgs(c)[0]); a != nil {
+					seeds = append(seeds, a)
+				}
+			case isCallTo(c, "crypto/rand.Read"), isCallTo(c, "io.ReadFull"), c.Common().IsInvoke() && c.Common().Method.Name() == "Read" && desc(c.Common().Value) == "global:crypto/rand.Reader":
+				args := callArgs(c)
+				buf := args[len(args)-1]
+				if isCallTo(c, "io.ReadFull") && desc(args[0]) != "global:crypto/rand.Reader" {
+					continue
+				}
+				nRead++
+				if a := rootAlloc(buf); a != nil {
+					filled = append(filled, a)
+				}
+			}
+		}
+	})
+	ok := nNew >= 1 && len(seeds) == nNew
+	for _, sd := range seeds {
+		hit := false
+		for _, f := range filled {
+			if f == sd {
+				hit = true
+			}
+		}
+		if !hit {
+			ok = false
+		}
+	}
+	R.decide(rule, "common.globalCprng:seed-from-system", "the seed given to NewCPRNG is the buffer that crypto/rand filled (the same local, not a copy)", ok,
+		fmt.Sprintf("%d NewCPRNG calls, %d seeds located, %d system reads into %d located buffers", nNew, len(seeds), nRead, len(filled)), P.Pos(initFn.Pos()))
 }
